@@ -22,7 +22,7 @@ LEVEL = "exploration"
 RULE = ("Hypothesis-generated (method, linear problem, span, dt, 1..2 calls, dense flag, query fractions). Distinct = SHA-1 of the "
         "case JSON. Non-trivial = a grid with >= 3 samples that is backward, or queried at an interior time nearer to the left "
         "neighbour, or with negative indices (always included) - measured per case.")
-ASSUMPTIONS = ["integer indices are Python ints (numpy integer scalars are not exercised)"]
+ASSUMPTIONS = ["integer indices are Python ints and numpy integer scalars (int64, int32, intp), rotating over the index range"]
 
 
 @st.composite
@@ -34,7 +34,7 @@ def _case(draw):
     frac = draw(st.sampled_from([1 / 4.0, 1 / 8.0, 1 / 16.0, 0.1, 0.3, 0.05, 0.5]))
     return dict(part="lookup", method=method, dtype="float64", prob=prob, y0=draw(PR.state([2])), t0=t0, tf=tf, dt=L * frac,
                 rtol=1e-6, atol=1e-6, dense=draw(st.booleans()), cut=draw(st.sampled_from([None, 0.5, 0.3])),
-                qfrac=draw(st.lists(st.floats(0.0, 1.0), min_size=4, max_size=8)), outside=draw(st.sampled_from([0.1, 1.0, 10.0])))
+                qfrac=draw(st.lists(st.floats(0.0, 1.0), min_size=4, max_size=8)), outside=draw(st.sampled_from([0.1, 1.0, 10.0])), itype=draw(st.integers(0, 3)))
 
 
 def parts(tier):
@@ -93,6 +93,7 @@ def check(case):
     sig = "{}:{}".format("backward" if backward else "forward", "dense" if case["dense"] else "nodense")
     ref = list(range(n))
     # ---- integer indices
+    itypes = [int, np.int64, np.int32, np.intp]
     for i in range(-n - 2, n + 3):
         try:
             ref[i]
@@ -100,12 +101,14 @@ def check(case):
         except IndexError:
             want_err = True
         try:
-            got = a[i]
+            # the index is handed over as a Python int or as a numpy integer scalar (the items of np.arange(len(system)))
+            ityp = itypes[(i + case.get("itype", 0)) % len(itypes)]
+            got = a[ityp(i)]
             if want_err:
                 viols.append(V("index_no_error", "system[{}] returned (t={!r}) for a trajectory of {} samples; a sequence raises IndexError".format(i, float(got.t), n), sig, **attrs))
                 break
             if float(got.t) != t[i] or not np.array_equal(np.asarray(got.y), y[i]):
-                viols.append(V("index_value", "system[{}] = (t={!r}) but the recorded sample is t={!r}".format(i, float(got.t), float(t[i])), sig, **attrs))
+                viols.append(V("index_value", "system[{}({})] = (t={!r}) but the recorded sample is t={!r}".format(ityp.__name__, i, float(got.t), float(t[i])), sig, **attrs))
                 break
         except IndexError:
             if not want_err:
